@@ -147,7 +147,11 @@ func Exec(c Call) (out Outcome) {
 	case "compile":
 		b := soy.NewBundle()
 		for i, f := range c.Files {
-			b.AddTemplateString(fmt.Sprintf("f%d.soy", i), f)
+			name := fmt.Sprintf("f%d.soy", i)
+			if c.Kind == "compile-unnamed" {
+				name = "" // the name is documented as optional
+			}
+			b.AddTemplateString(name, f)
 		}
 		_, err = b.Compile()
 	default:
